@@ -278,12 +278,16 @@ def _install_probe_verb():
     class JailProbe(request.SmartServerRequest):
         """do(which): try to open a control directory from inside a request."""
 
-        def do(self, which):
+        def do(self, which, work=b"0"):
             from breezy.controldir import ControlDir
             from breezy.transport import get_transport
 
             st = getattr(cur_sim(), "c31", None)
             which = which.decode()
+            # ordinary in-jail work of a handler before it is led elsewhere (each store
+            # operation is a point where another connection's thread may run)
+            for k in range(int(work)):
+                self._backing_transport.has("readme.txt" if k % 2 else "br/.bzr/branch-format")
             try:
                 if which == "secret_url":
                     t = get_transport(st["store_url"] + "secret/br")
@@ -484,7 +488,7 @@ def _watch_class():
         except RuntimeError:
             st = None
         if st is not None:
-            st["reads"].append((op, self._decorated._p(relpath), result))
+            st["reads"].setdefault(cur_sim().current().name, []).append((op, self._decorated._p(relpath), result))
 
     class Watch(TransportDecorator):
         @classmethod
@@ -637,7 +641,7 @@ def _session(sim, plan, url, t, factory, outside0):
     rcp = plan["rcp"]
     ww = wiresim.WireWorld(sim, factory.transport, server=plan.get("server", "pipe"), server_read="atmost", client_read="atmost", seg=plan.get("seg"), root_client_path=rcp, name="jail")
     ground = Ground(t)
-    st = sim.c31 = {"store_url": url, "reads": []}
+    st = sim.c31 = {"store_url": url, "reads": {}}
     mutated = [False]
     seam_ops = [0]
     suspects = [0]
@@ -658,16 +662,16 @@ def _session(sim, plan, url, t, factory, outside0):
                 raise te.TransportError(f"EINVAL: cannot move {src} into itself ({dst})")
 
     sim.monitors.append(monitor)
-    medium = {"m": None}
+    medium = {"m": None}  # the connection of the single-connection phases
 
-    def new_client(v):
+    def new_client(v, medium=medium):
         if medium["m"] is None:
             medium["m"] = wiresim.LoopbackMedium(ww)
         m = medium["m"]
         m._protocol_version = v
         return client._SmartClient(m)
 
-    def drop_connection():
+    def drop_connection(medium=medium):
         m, medium["m"] = medium["m"], None
         if m is not None:
             try:
@@ -688,7 +692,7 @@ def _session(sim, plan, url, t, factory, outside0):
         """After one request / probe: what the server read below the chroot, what changed
         outside /served, and what the response carries."""
         cfg = f"root_client_path={plan['rcp']!r} userdirs={bool(plan.get('userdirs'))}"
-        reads, st["reads"] = st["reads"], []
+        reads = st["reads"].pop(sim.current().name, [])
         for rec in reads:
             if ground.confirmed_outside(rec):
                 op, logged, result = rec
@@ -711,14 +715,14 @@ def _session(sim, plan, url, t, factory, outside0):
                 sim.fail("leak", ["leak"] + signature(fam, feat, "read", label)[1:], f"{label}: the response contains {tok!r}, which exists only outside /served: {blob[:300]!r}; {cfg}")
 
     # ---- hostile requests ---------------------------------------------------------------
-    for i, r in enumerate(plan["reqs"]):
+    def run_request(i, r, medium=medium, who=""):
         verb = r["verb"].encode()
         v = r["v"]
         paths = [_enc(p) for p in r["paths"]]
         feat = max((feature(p) for p in r["paths"]), key=["other", "userdir", "dotdot", "encoded-slash", "encoded-slash-dotdot"].index)
         fam = "vfs" if verb in VFS else "nonvfs"
-        label = f"req {i} v{v} {r['verb']}({', '.join(repr(p) for p in r['paths'])})"
-        cl = new_client(v)
+        label = f"{who}req {i} v{v} {r['verb']}({', '.join(repr(p) for p in r['paths'])})"
+        cl = new_client(v, medium)
         blob = b""
         n0 = seam_ops[0]
         outcome = "ok"
@@ -765,14 +769,14 @@ def _session(sim, plan, url, t, factory, outside0):
             sim.violation = None
             sim.probe("response_never_arrived")
             outcome = "stall"
-            drop_connection()
+            drop_connection(medium)
         except (errors.BzrError, te.TransportError, ConnectionError, ValueError, TypeError, AssertionError, UnicodeError, IndexError, KeyError, AttributeError) as e:
             if sim.violation is not None:
                 raise sim.violation from None
             outcome = "client:" + type(e).__name__
-            drop_connection()
+            drop_connection(medium)
         if medium["m"] is not None and medium["m"]._current_request is not None:
-            drop_connection()  # a response was left half-read: start the next request on a fresh connection
+            drop_connection(medium)  # a response was left half-read: start the next request on a fresh connection
         sim.event("req", i, v, r["verb"], feat, outcome, seam_ops[0] - n0)
         sim.state_seen((r["verb"], v, feat, outcome.split(":")[0], plan["rcp"], bool(plan.get("userdirs"))))
         if feat != "other" or any(tok in p for p in r["paths"] for tok in ("secret", "served-evil", "~", "\\", "%5C", "\x00")):
@@ -786,6 +790,9 @@ def _session(sim, plan, url, t, factory, outside0):
         sim.probe(f"requests_{fam}")
         sim.probe(f"feature_{feat}")
         judge(label, fam, feat, blob)
+
+    for i, r in enumerate(plan["reqs"]):
+        run_request(i, r)
 
     # ---- relative clones of a real RemoteTransport -----------------------------------------
     for c in plan.get("clones", []):
@@ -826,12 +833,12 @@ def _session(sim, plan, url, t, factory, outside0):
             pass
 
     # ---- ControlDir.open from inside a request -------------------------------------------------
-    for which in plan.get("probes", []):
-        drop_connection()
-        cl = new_client(3)
-        label = f"in-request ControlDir.open probe {which}"
+    def run_probe(which, work=0, medium=medium, who=""):
+        drop_connection(medium)
+        cl = new_client(3, medium)
+        label = f"{who}in-request ControlDir.open probe {which}" + (f" after {work} in-jail store operations" if work else "")
         try:
-            resp = cl.call(b"sim.jailprobe", which.encode())
+            resp = cl.call(b"sim.jailprobe", which.encode(), *([str(work).encode()] if work else []))
         except te.ErrorFromSmartServer as e:
             resp = tuple(e.error_tuple)
         sim.event("probe", which, resp[0])
@@ -844,6 +851,38 @@ def _session(sim, plan, url, t, factory, outside0):
         if which == "backing_clone" and resp[0] == b"opened":
             blob = b""  # the public branch's own revision id
         judge(label, "in-request-open", "encoded-slash" if which == "backing_encoded" else which, blob)
+
+    for which in plan.get("probes", []):
+        run_probe(which)
+
+    # ---- two connections served concurrently (one server thread per connection) --------------------
+    two = plan.get("two")
+    if two:
+        drop_connection()
+        failures = []
+
+        def make_actor(name, items):
+            conn = {"m": None}
+
+            def body():
+                for k, item in enumerate(items):
+                    if "probe" in item:
+                        run_probe(item["probe"], item.get("work", 0), conn, who=f"[{name}] ")
+                    else:
+                        run_request(k, item["req"], conn, who=f"[{name}] ")
+                drop_connection(conn)
+
+            return body
+
+        for name in sorted(two):
+            sim.spawn(name, make_actor(name, two[name]))
+        sim.run_actors()
+        for name in sorted(two):
+            a = sim.actors[name]
+            if a.exc is not None:
+                raise a.exc
+        sim.probe("two_connection_sessions")
+        sim.probe("two_connection_switches", sim.switches)
 
     # ---- end of session --------------------------------------------------------------------------
     now = ground.outside_snapshot()
